@@ -259,7 +259,7 @@ PROPS["C02"] = {
                  + [H("c02w::" + n, "thorough", 900) for n in _wt]
                  + [H("c02w::" + n, "quick" if n in _wmsg_q else "thorough", 900, what="Message::as_bytes == reference encoding of the whole message") for n in _wmsg]
                  + [H(e["name"], "thorough", 900, what="Message::as_bytes == reference encoding, one argument layout") for e in _cat["wm_arg"]]
-                 + [H("c02w::c02w_message_whole_nonverbose_min", "thorough", 1800), H("c02w::c02w_payload_verbose_concat", "thorough", 3600, mem_gb=30)]
+                 + [H("c02w::c02w_message_whole_nonverbose_min", "thorough", 1800)]
                  + [H("c14::c14_typeinfo_all_words", "quick", 300, what="accept/reject and decoded description for all 2^32 type-info words (shared with C14)")]
                  + [H(e["name"], e["tier"], 900) for e in _cat["w_arg"]],
 }
